@@ -955,15 +955,33 @@ func (e *Exec) allDigits(st *State, s string) string {
 	f := e.fun("all_digits", []string{SInt}, SBool)
 	t := app(f, s)
 	key := "alldigits:" + s
-	if !e.abstr[key] {
+	if !e.abstr[key] && !strings.Contains(s, "|q:") {
 		e.abstr[key] = true
+		isDigit := func(ch string) string {
+			return tAnd(app("bvuge", ch, bvLitI('0', 8)), app("bvule", ch, bvLitI('9', 8)))
+		}
+		// all_digits(s) ==> every byte is a digit (quantified, triggered by s_at on s)
+		i := e.freshName("i")
+		e.axioms = append(e.axioms, fmt.Sprintf("(=> (and %s (bvugt %s (_ bv9 64))) (forall ((%s (_ BitVec 64))) (! (=> (bvult %s %s) %s) :pattern (%s))))",
+			t, e.strLen(s), i, i, e.strLen(s), isDigit(e.strAt(s, i)), e.strAt(s, i)))
+		// !all_digits(s) ==> some byte (a skolem position) is not a digit
+		nd := app(e.fun("non_digit_at", []string{SInt}, SBV(64)), s)
+		e.axioms = append(e.axioms, tImp(tNot(t), tAnd(app("bvult", nd, e.strLen(s)), tNot(isDigit(e.strAt(s, nd))))))
+		// exact pointwise expansion and exact decimal value for strings of at most 9 bytes
 		var cs []string
-		for i := 0; i < 9; i++ {
-			ch := e.strAt(s, bvLitI(int64(i), 64))
-			cs = append(cs, tImp(app("bvult", bvLitI(int64(i), 64), e.strLen(s)),
-				tAnd(app("bvuge", ch, bvLitI('0', 8)), app("bvule", ch, bvLitI('9', 8)))))
+		for k := 0; k < 9; k++ {
+			ch := e.strAt(s, bvLitI(int64(k), 64))
+			cs = append(cs, tImp(app("bvult", bvLitI(int64(k), 64), e.strLen(s)), isDigit(ch)))
 		}
 		e.axioms = append(e.axioms, tImp(app("bvule", e.strLen(s), bvLitI(9, 64)), tEq(t, tAnd(cs...))))
+		// the decimal value of an n-digit string is below 10^n (n <= 9); the digits
+		// themselves are recovered from the value when a counterexample is replayed
+		dv := app(e.fun("dec_val", []string{SInt}, SBV(64)), s)
+		p10 := int64(1)
+		for n := 1; n <= 9; n++ {
+			p10 *= 10
+			e.axioms = append(e.axioms, tImp(tAnd(t, tEq(e.strLen(s), bvLitI(int64(n), 64))), app("bvult", dv, bvLitI(p10, 64))))
+		}
 	}
 	return t
 }
